@@ -17,7 +17,10 @@ def jobs(ctx):
     def job(name, base, expect, workers, what, **consts):
         J.append(dict(name=name, module="FloatMC", cfg=ctx.cfg("float", base, name=name, **consts), expect=expect,
                       workers=workers, what=what, env=None))
-    job("mc-conv", "FloatMC_conv.cfg", "ok", 4, "a cast-table algorithm (Level I) differs from IntToFloat/FloatToInt/FloatToFloat (Level A)")
+    # quick: widths 2/3/5/9 and precisions 4/6/9; thorough: 2/3/5/10 and 4/7/10 (the base configuration).  Both keep
+    # W16 < p32 < W32 < p64 <= W64 - 3 and p80 = W64, the relations the algorithms depend on.
+    small = dict(WLong=9, P64=6, P80=9, EMAX32=9, EMAX64=10, EMAX80=11) if q else {}
+    job("mc-conv", "FloatMC_conv.cfg", "ok", 4, "a cast-table algorithm (Level I) differs from IntToFloat/FloatToInt/FloatToFloat (Level A)", **small)
     job("mc-mini", "FloatMC_mini.cfg", "ok", 4, "comparison / truth test / operand order (Level I) differs from the IEEE relation (Level A), or Level A is not the nearest-even value",
         TypesC='{"float","ldouble"}' if q else '{"float","double","ldouble"}')
     if not q:
@@ -26,12 +29,12 @@ def jobs(ctx):
         job("ctl-fmt-ss-sd", "FloatMC_mini.cfg", "reject", 2, "addss/addsd selection", P64=5, NEMIN64=4, EMAX64=5,
             Kinds='{"arith"}', TypesC='{"double"}', MUT='"ss-sd-selection"')
     # sensitivity controls: the pinned algorithms and wrong variants must be rejected
-    job("ctl-conv-pinned", "FloatMC_conv.cfg", "reject", 2, "pinned cast table (D05)", FIXED=False)
+    job("ctl-conv-pinned", "FloatMC_conv.cfg", "reject", 2, "pinned cast table (D05)", FIXED=False, **small)
     job("ctl-mini-pinned", "FloatMC_mini.cfg", "reject", 2, "pinned NaN handling (cmp_zero, long double ==)", FIXED=False)
     cm = CONV_MUTS if not q else [CONV_MUTS[(ctx.seed + k * 4) % len(CONV_MUTS)] for k in range(2)]
     mm = MINI_MUTS if not q else [MINI_MUTS[ctx.seed % len(MINI_MUTS)]]
     for m in cm:
-        job("ctl-conv-" + m, "FloatMC_conv.cfg", "reject", 2, "wrong variant " + m, MUT='"%s"' % m)
+        job("ctl-conv-" + m, "FloatMC_conv.cfg", "reject", 2, "wrong variant " + m, MUT='"%s"' % m, **small)
     for m in mm:
         job("ctl-mini-" + m, "FloatMC_mini.cfg", "reject", 2, "wrong variant " + m, MUT='"%s"' % m)
     return J
@@ -49,5 +52,5 @@ def judge(ctx, j, res):
         p = ctx.replay_dir("tlc-" + j["name"])
         open(p + "/counterexample.txt", "w").write(res.trace_text())
         import json
-        json.dump(dict(kind="tlc", area="float", module=j["module"], cfg=open(j["cfg"]).read()), open(p + "/case.json", "w"))
+        json.dump(dict(kind="tlc", area="float", module=j["module"], cfg_text=open(j["cfg"]).read()), open(p + "/case.json", "w"))
         ctx.report("tlc:%s:%s" % (j["name"], res.violated), j["what"], p)
